@@ -4,7 +4,7 @@ CFG = dict(
     coq="Properties/C04.v",
     areas=["c04"],
     level="proof",
-    theorems_expected=["C04_sound_xz", "C04_sound_lzip", "C04_magic_xz", "C04_magic_lzip", "C04_magic_lzip_refuted",
+    theorems_expected=["C04_sound_xz", "C04_sound_lzip", "C04_magic_xz", "C04_magic_lzip", "C04_magic_lzip_refuted", "C04_lzip_empty_input_known",
                        "C04_crc32_one_byte", "C04_crc64_one_byte", "C04_bitflip_stream_header", "C04_bitflip_block_header",
                        "C04_bitflip_stream_footer", "C04_bitflip_check_field", "C04_bitflip_lzip_trailer"],
     rule="cases = valid files written by the crate (XZ: all check types, delta chains, block sizes; LZIP: dictionary/member sizes) "
